@@ -5,7 +5,7 @@ From Coq Require Import ZArith List Bool Reals Lia Lra.
 From FT.lib Require Import Num Arr ArrLemmas Lower NumArr.
 From FT.gen Require Import Common Interp2d Interp3d Vinterp2d Vinterp3d FteikCommon Fteik2d Fteik3d Ray2d Ray3d.
 From FT.proofs Require Import Sweep2dProofs Sweep3dProofs GradR Solve2dProofs Solve3dProofs.
-From FT.proofs Require GradUnit GradSign.
+From FT.proofs Require GradUnit GradSign ApiGenEq.
 Import ListNotations.
 Open Scope R_scope.
 
@@ -173,6 +173,858 @@ Theorem C11_recorded_direction_not_always_upwind :
          IZR (get 0%Z (snd (GradSign.final_state GradSign.w2_slow 1 1 (1 / 4) (1 / 2) nsweep)) [0%Z; 2%Z; 0%Z]) < 0.
 Proof. exact @GradSign.fteik2d_gradient_wrong_sign. Qed.
 
+(* API layer, extracted from _grid.py on every run: `.gradient` raises ValueError when no gradient was computed, otherwise returns Grid2D objects built from components 0, 1 of the stored array in that order (Z, X), on the same spacing and origin *)
+Theorem C11_gradient_grids_component_order_2d :
+  ApiGen.gradient_2d_guard =
+       (String.String (Ascii.Ascii true true false false true true true false)
+          (String.String (Ascii.Ascii true false true false false true true false)
+             (String.String (Ascii.Ascii false false true true false true true false)
+                (String.String (Ascii.Ascii false true true false false true true false)
+                   (String.String (Ascii.Ascii false true true true false true false false)
+                      (String.String (Ascii.Ascii true true true true true false true false)
+                         (String.String (Ascii.Ascii true true true false false true true false)
+                            (String.String (Ascii.Ascii false true false false true true true false)
+                               (String.String (Ascii.Ascii true false false false false true true false)
+                                  (String.String (Ascii.Ascii false false true false false true true false)
+                                     (String.String (Ascii.Ascii true false false true false true true false)
+                                        (String.String (Ascii.Ascii true false true false false true true false)
+                                           (String.String (Ascii.Ascii false true true true false true true false)
+                                              (String.String (Ascii.Ascii false false true false true true true false)
+                                                 (String.String
+                                                    (Ascii.Ascii false false false false false true false false)
+                                                    (String.String
+                                                       (Ascii.Ascii true false false true false true true false)
+                                                       (String.String
+                                                          (Ascii.Ascii true true false false true true true false)
+                                                          (String.String
+                                                             (Ascii.Ascii false false false false false true false
+                                                                false)
+                                                             (String.String
+                                                                (Ascii.Ascii false true true true false false true
+                                                                   false)
+                                                                (String.String
+                                                                   (Ascii.Ascii true true true true false true true
+                                                                      false)
+                                                                   (String.String
+                                                                      (Ascii.Ascii false true true true false true true
+                                                                         false)
+                                                                      (String.String
+                                                                         (Ascii.Ascii true false true false false true
+                                                                            true false) String.EmptyString))))))))))))))))))))),
+        String.String (Ascii.Ascii false true true false true false true false)
+          (String.String (Ascii.Ascii true false false false false true true false)
+             (String.String (Ascii.Ascii false false true true false true true false)
+                (String.String (Ascii.Ascii true false true false true true true false)
+                   (String.String (Ascii.Ascii true false true false false true true false)
+                      (String.String (Ascii.Ascii true false true false false false true false)
+                         (String.String (Ascii.Ascii false true false false true true true false)
+                            (String.String (Ascii.Ascii false true false false true true true false)
+                               (String.String (Ascii.Ascii true true true true false true true false)
+                                  (String.String (Ascii.Ascii false true false false true true true false)
+                                     String.EmptyString)))))))))) /\
+       ApiGen.gradient_2d_ctor =
+       String.String (Ascii.Ascii true true true false false false true false)
+         (String.String (Ascii.Ascii false true false false true true true false)
+            (String.String (Ascii.Ascii true false false true false true true false)
+               (String.String (Ascii.Ascii false false true false false true true false)
+                  (String.String (Ascii.Ascii false true false false true true false false)
+                     (String.String (Ascii.Ascii false false true false false false true false) String.EmptyString))))) /\
+       ApiGen.gradient_2d_index = ApiGen.arange 2 /\
+       ApiGen.gradient_2d_axis = (2%Z, 3%Z) /\
+       ApiGen.gradient_2d_items =
+       [[(String.String (Ascii.Ascii true true true false false true true false)
+            (String.String (Ascii.Ascii false true false false true true true false)
+               (String.String (Ascii.Ascii true false false true false true true false)
+                  (String.String (Ascii.Ascii false false true false false true true false) String.EmptyString))),
+          String.String (Ascii.Ascii true true false false true true true false)
+            (String.String (Ascii.Ascii true false true false false true true false)
+               (String.String (Ascii.Ascii false false true true false true true false)
+                  (String.String (Ascii.Ascii false true true false false true true false)
+                     (String.String (Ascii.Ascii false true true true false true false false)
+                        (String.String (Ascii.Ascii true true true true true false true false)
+                           (String.String (Ascii.Ascii true true true false false true true false)
+                              (String.String (Ascii.Ascii false true false false true true true false)
+                                 (String.String (Ascii.Ascii true false false false false true true false)
+                                    (String.String (Ascii.Ascii false false true false false true true false)
+                                       (String.String (Ascii.Ascii true false false true false true true false)
+                                          (String.String (Ascii.Ascii true false true false false true true false)
+                                             (String.String (Ascii.Ascii false true true true false true true false)
+                                                (String.String
+                                                   (Ascii.Ascii false false true false true true true false)
+                                                   (String.String
+                                                      (Ascii.Ascii true true false true true false true false)
+                                                      (String.String
+                                                         (Ascii.Ascii false true false true true true false false)
+                                                         (String.String
+                                                            (Ascii.Ascii false false true true false true false false)
+                                                            (String.String
+                                                               (Ascii.Ascii false false false false false true false
+                                                                  false)
+                                                               (String.String
+                                                                  (Ascii.Ascii false true false true true true false
+                                                                     false)
+                                                                  (String.String
+                                                                     (Ascii.Ascii false false true true false true
+                                                                        false false)
+                                                                     (String.String
+                                                                        (Ascii.Ascii false false false false false true
+                                                                           false false)
+                                                                        (String.String
+                                                                           (Ascii.Ascii false false false false true
+                                                                              true false false)
+                                                                           (String.String
+                                                                              (Ascii.Ascii true false true true true
+                                                                                 false true false) String.EmptyString)))))))))))))))))))))));
+         (String.String (Ascii.Ascii true true true false false true true false)
+            (String.String (Ascii.Ascii false true false false true true true false)
+               (String.String (Ascii.Ascii true false false true false true true false)
+                  (String.String (Ascii.Ascii false false true false false true true false)
+                     (String.String (Ascii.Ascii true true false false true true true false)
+                        (String.String (Ascii.Ascii true false false true false true true false)
+                           (String.String (Ascii.Ascii false true false true true true true false)
+                              (String.String (Ascii.Ascii true false true false false true true false)
+                                 String.EmptyString))))))),
+          String.String (Ascii.Ascii true true false false true true true false)
+            (String.String (Ascii.Ascii true false true false false true true false)
+               (String.String (Ascii.Ascii false false true true false true true false)
+                  (String.String (Ascii.Ascii false true true false false true true false)
+                     (String.String (Ascii.Ascii false true true true false true false false)
+                        (String.String (Ascii.Ascii true true true true true false true false)
+                           (String.String (Ascii.Ascii true true true false false true true false)
+                              (String.String (Ascii.Ascii false true false false true true true false)
+                                 (String.String (Ascii.Ascii true false false true false true true false)
+                                    (String.String (Ascii.Ascii false false true false false true true false)
+                                       (String.String (Ascii.Ascii true true false false true true true false)
+                                          (String.String (Ascii.Ascii true false false true false true true false)
+                                             (String.String (Ascii.Ascii false true false true true true true false)
+                                                (String.String
+                                                   (Ascii.Ascii true false true false false true true false)
+                                                   String.EmptyString))))))))))))));
+         (String.String (Ascii.Ascii true true true true false true true false)
+            (String.String (Ascii.Ascii false true false false true true true false)
+               (String.String (Ascii.Ascii true false false true false true true false)
+                  (String.String (Ascii.Ascii true true true false false true true false)
+                     (String.String (Ascii.Ascii true false false true false true true false)
+                        (String.String (Ascii.Ascii false true true true false true true false) String.EmptyString))))),
+          String.String (Ascii.Ascii true true false false true true true false)
+            (String.String (Ascii.Ascii true false true false false true true false)
+               (String.String (Ascii.Ascii false false true true false true true false)
+                  (String.String (Ascii.Ascii false true true false false true true false)
+                     (String.String (Ascii.Ascii false true true true false true false false)
+                        (String.String (Ascii.Ascii true true true true true false true false)
+                           (String.String (Ascii.Ascii true true true true false true true false)
+                              (String.String (Ascii.Ascii false true false false true true true false)
+                                 (String.String (Ascii.Ascii true false false true false true true false)
+                                    (String.String (Ascii.Ascii true true true false false true true false)
+                                       (String.String (Ascii.Ascii true false false true false true true false)
+                                          (String.String (Ascii.Ascii false true true true false true true false)
+                                             String.EmptyString))))))))))))];
+        [(String.String (Ascii.Ascii true true true false false true true false)
+            (String.String (Ascii.Ascii false true false false true true true false)
+               (String.String (Ascii.Ascii true false false true false true true false)
+                  (String.String (Ascii.Ascii false false true false false true true false) String.EmptyString))),
+          String.String (Ascii.Ascii true true false false true true true false)
+            (String.String (Ascii.Ascii true false true false false true true false)
+               (String.String (Ascii.Ascii false false true true false true true false)
+                  (String.String (Ascii.Ascii false true true false false true true false)
+                     (String.String (Ascii.Ascii false true true true false true false false)
+                        (String.String (Ascii.Ascii true true true true true false true false)
+                           (String.String (Ascii.Ascii true true true false false true true false)
+                              (String.String (Ascii.Ascii false true false false true true true false)
+                                 (String.String (Ascii.Ascii true false false false false true true false)
+                                    (String.String (Ascii.Ascii false false true false false true true false)
+                                       (String.String (Ascii.Ascii true false false true false true true false)
+                                          (String.String (Ascii.Ascii true false true false false true true false)
+                                             (String.String (Ascii.Ascii false true true true false true true false)
+                                                (String.String
+                                                   (Ascii.Ascii false false true false true true true false)
+                                                   (String.String
+                                                      (Ascii.Ascii true true false true true false true false)
+                                                      (String.String
+                                                         (Ascii.Ascii false true false true true true false false)
+                                                         (String.String
+                                                            (Ascii.Ascii false false true true false true false false)
+                                                            (String.String
+                                                               (Ascii.Ascii false false false false false true false
+                                                                  false)
+                                                               (String.String
+                                                                  (Ascii.Ascii false true false true true true false
+                                                                     false)
+                                                                  (String.String
+                                                                     (Ascii.Ascii false false true true false true
+                                                                        false false)
+                                                                     (String.String
+                                                                        (Ascii.Ascii false false false false false true
+                                                                           false false)
+                                                                        (String.String
+                                                                           (Ascii.Ascii true false false false true
+                                                                              true false false)
+                                                                           (String.String
+                                                                              (Ascii.Ascii true false true true true
+                                                                                 false true false) String.EmptyString)))))))))))))))))))))));
+         (String.String (Ascii.Ascii true true true false false true true false)
+            (String.String (Ascii.Ascii false true false false true true true false)
+               (String.String (Ascii.Ascii true false false true false true true false)
+                  (String.String (Ascii.Ascii false false true false false true true false)
+                     (String.String (Ascii.Ascii true true false false true true true false)
+                        (String.String (Ascii.Ascii true false false true false true true false)
+                           (String.String (Ascii.Ascii false true false true true true true false)
+                              (String.String (Ascii.Ascii true false true false false true true false)
+                                 String.EmptyString))))))),
+          String.String (Ascii.Ascii true true false false true true true false)
+            (String.String (Ascii.Ascii true false true false false true true false)
+               (String.String (Ascii.Ascii false false true true false true true false)
+                  (String.String (Ascii.Ascii false true true false false true true false)
+                     (String.String (Ascii.Ascii false true true true false true false false)
+                        (String.String (Ascii.Ascii true true true true true false true false)
+                           (String.String (Ascii.Ascii true true true false false true true false)
+                              (String.String (Ascii.Ascii false true false false true true true false)
+                                 (String.String (Ascii.Ascii true false false true false true true false)
+                                    (String.String (Ascii.Ascii false false true false false true true false)
+                                       (String.String (Ascii.Ascii true true false false true true true false)
+                                          (String.String (Ascii.Ascii true false false true false true true false)
+                                             (String.String (Ascii.Ascii false true false true true true true false)
+                                                (String.String
+                                                   (Ascii.Ascii true false true false false true true false)
+                                                   String.EmptyString))))))))))))));
+         (String.String (Ascii.Ascii true true true true false true true false)
+            (String.String (Ascii.Ascii false true false false true true true false)
+               (String.String (Ascii.Ascii true false false true false true true false)
+                  (String.String (Ascii.Ascii true true true false false true true false)
+                     (String.String (Ascii.Ascii true false false true false true true false)
+                        (String.String (Ascii.Ascii false true true true false true true false) String.EmptyString))))),
+          String.String (Ascii.Ascii true true false false true true true false)
+            (String.String (Ascii.Ascii true false true false false true true false)
+               (String.String (Ascii.Ascii false false true true false true true false)
+                  (String.String (Ascii.Ascii false true true false false true true false)
+                     (String.String (Ascii.Ascii false true true true false true false false)
+                        (String.String (Ascii.Ascii true true true true true false true false)
+                           (String.String (Ascii.Ascii true true true true false true true false)
+                              (String.String (Ascii.Ascii false true false false true true true false)
+                                 (String.String (Ascii.Ascii true false false true false true true false)
+                                    (String.String (Ascii.Ascii true true true false false true true false)
+                                       (String.String (Ascii.Ascii true false false true false true true false)
+                                          (String.String (Ascii.Ascii false true true true false true true false)
+                                             String.EmptyString))))))))))))]] /\
+       ApiGen.grid_2d_init =
+       (String.String (Ascii.Ascii false false false true false true false false)
+          (String.String (Ascii.Ascii true true false false true true true false)
+             (String.String (Ascii.Ascii true false true false false true true false)
+                (String.String (Ascii.Ascii false false true true false true true false)
+                   (String.String (Ascii.Ascii false true true false false true true false)
+                      (String.String (Ascii.Ascii false false true true false true false false)
+                         (String.String (Ascii.Ascii false false false false false true false false)
+                            (String.String (Ascii.Ascii false true false true false true false false)
+                               (String.String (Ascii.Ascii true false false false false true true false)
+                                  (String.String (Ascii.Ascii false true false false true true true false)
+                                     (String.String (Ascii.Ascii true true true false false true true false)
+                                        (String.String (Ascii.Ascii true true false false true true true false)
+                                           (String.String (Ascii.Ascii false false true true false true false false)
+                                              (String.String
+                                                 (Ascii.Ascii false false false false false true false false)
+                                                 (String.String
+                                                    (Ascii.Ascii false true false true false true false false)
+                                                    (String.String
+                                                       (Ascii.Ascii false true false true false true false false)
+                                                       (String.String
+                                                          (Ascii.Ascii true true false true false true true false)
+                                                          (String.String
+                                                             (Ascii.Ascii true true true false true true true false)
+                                                             (String.String
+                                                                (Ascii.Ascii true false false false false true true
+                                                                   false)
+                                                                (String.String
+                                                                   (Ascii.Ascii false true false false true true true
+                                                                      false)
+                                                                   (String.String
+                                                                      (Ascii.Ascii true true true false false true true
+                                                                         false)
+                                                                      (String.String
+                                                                         (Ascii.Ascii true true false false true true
+                                                                            true false)
+                                                                         (String.String
+                                                                            (Ascii.Ascii true false false true false
+                                                                               true false false) String.EmptyString)))))))))))))))))))))),
+        String.String (Ascii.Ascii true true false false true true true false)
+          (String.String (Ascii.Ascii true false true false true true true false)
+             (String.String (Ascii.Ascii false false false false true true true false)
+                (String.String (Ascii.Ascii true false true false false true true false)
+                   (String.String (Ascii.Ascii false true false false true true true false)
+                      (String.String (Ascii.Ascii false false false true false true false false)
+                         (String.String (Ascii.Ascii true false false true false true false false)
+                            (String.String (Ascii.Ascii false true true true false true false false)
+                               (String.String (Ascii.Ascii true true true true true false true false)
+                                  (String.String (Ascii.Ascii true true true true true false true false)
+                                     (String.String (Ascii.Ascii true false false true false true true false)
+                                        (String.String (Ascii.Ascii false true true true false true true false)
+                                           (String.String (Ascii.Ascii true false false true false true true false)
+                                              (String.String (Ascii.Ascii false false true false true true true false)
+                                                 (String.String (Ascii.Ascii true true true true true false true false)
+                                                    (String.String
+                                                       (Ascii.Ascii true true true true true false true false)
+                                                       (String.String
+                                                          (Ascii.Ascii false false false true false true false false)
+                                                          (String.String
+                                                             (Ascii.Ascii false true false true false true false false)
+                                                             (String.String
+                                                                (Ascii.Ascii true false false false false true true
+                                                                   false)
+                                                                (String.String
+                                                                   (Ascii.Ascii false true false false true true true
+                                                                      false)
+                                                                   (String.String
+                                                                      (Ascii.Ascii true true true false false true true
+                                                                         false)
+                                                                      (String.String
+                                                                         (Ascii.Ascii true true false false true true
+                                                                            true false)
+                                                                         (String.String
+                                                                            (Ascii.Ascii false false true true false
+                                                                               true false false)
+                                                                            (String.String
+                                                                               (Ascii.Ascii false false false false
+                                                                                  false true false false)
+                                                                               (String.String
+                                                                                  (Ascii.Ascii false true false true
+                                                                                     false true false false)
+                                                                                  (String.String
+                                                                                     (Ascii.Ascii false true false true
+                                                                                        false true false false)
+                                                                                     (String.String
+                                                                                        (Ascii.Ascii true true false
+                                                                                          true false true true false)
+                                                                                        (String.String
+                                                                                          (Ascii.Ascii true true true
+                                                                                          false true true true false)
+                                                                                          (String.String
+                                                                                          (Ascii.Ascii true false false
+                                                                                          false false true true false)
+                                                                                          (String.String
+                                                                                          (Ascii.Ascii false true false
+                                                                                          false true true true false)
+                                                                                          (String.String
+                                                                                          (Ascii.Ascii true true true
+                                                                                          false false true true false)
+                                                                                          (String.String
+                                                                                          (Ascii.Ascii true true false
+                                                                                          false true true true false)
+                                                                                          (String.String
+                                                                                          (Ascii.Ascii true false false
+                                                                                          true false true false false)
+                                                                                          String.EmptyString))))))))))))))))))))))))))))))))).
+Proof. exact @ApiGenEq.gen_gradient_2d. Qed.
+
+(* 3D: components 0, 1, 2 (Z, X, Y) *)
+Theorem C11_gradient_grids_component_order_3d :
+  ApiGen.gradient_3d_guard =
+       (String.String (Ascii.Ascii true true false false true true true false)
+          (String.String (Ascii.Ascii true false true false false true true false)
+             (String.String (Ascii.Ascii false false true true false true true false)
+                (String.String (Ascii.Ascii false true true false false true true false)
+                   (String.String (Ascii.Ascii false true true true false true false false)
+                      (String.String (Ascii.Ascii true true true true true false true false)
+                         (String.String (Ascii.Ascii true true true false false true true false)
+                            (String.String (Ascii.Ascii false true false false true true true false)
+                               (String.String (Ascii.Ascii true false false false false true true false)
+                                  (String.String (Ascii.Ascii false false true false false true true false)
+                                     (String.String (Ascii.Ascii true false false true false true true false)
+                                        (String.String (Ascii.Ascii true false true false false true true false)
+                                           (String.String (Ascii.Ascii false true true true false true true false)
+                                              (String.String (Ascii.Ascii false false true false true true true false)
+                                                 (String.String
+                                                    (Ascii.Ascii false false false false false true false false)
+                                                    (String.String
+                                                       (Ascii.Ascii true false false true false true true false)
+                                                       (String.String
+                                                          (Ascii.Ascii true true false false true true true false)
+                                                          (String.String
+                                                             (Ascii.Ascii false false false false false true false
+                                                                false)
+                                                             (String.String
+                                                                (Ascii.Ascii false true true true false false true
+                                                                   false)
+                                                                (String.String
+                                                                   (Ascii.Ascii true true true true false true true
+                                                                      false)
+                                                                   (String.String
+                                                                      (Ascii.Ascii false true true true false true true
+                                                                         false)
+                                                                      (String.String
+                                                                         (Ascii.Ascii true false true false false true
+                                                                            true false) String.EmptyString))))))))))))))))))))),
+        String.String (Ascii.Ascii false true true false true false true false)
+          (String.String (Ascii.Ascii true false false false false true true false)
+             (String.String (Ascii.Ascii false false true true false true true false)
+                (String.String (Ascii.Ascii true false true false true true true false)
+                   (String.String (Ascii.Ascii true false true false false true true false)
+                      (String.String (Ascii.Ascii true false true false false false true false)
+                         (String.String (Ascii.Ascii false true false false true true true false)
+                            (String.String (Ascii.Ascii false true false false true true true false)
+                               (String.String (Ascii.Ascii true true true true false true true false)
+                                  (String.String (Ascii.Ascii false true false false true true true false)
+                                     String.EmptyString)))))))))) /\
+       ApiGen.gradient_3d_ctor =
+       String.String (Ascii.Ascii true true true false false false true false)
+         (String.String (Ascii.Ascii false true false false true true true false)
+            (String.String (Ascii.Ascii true false false true false true true false)
+               (String.String (Ascii.Ascii false false true false false true true false)
+                  (String.String (Ascii.Ascii true true false false true true false false)
+                     (String.String (Ascii.Ascii false false true false false false true false) String.EmptyString))))) /\
+       ApiGen.gradient_3d_index = ApiGen.arange 3 /\
+       ApiGen.gradient_3d_axis = (3%Z, 4%Z) /\
+       ApiGen.gradient_3d_items =
+       [[(String.String (Ascii.Ascii true true true false false true true false)
+            (String.String (Ascii.Ascii false true false false true true true false)
+               (String.String (Ascii.Ascii true false false true false true true false)
+                  (String.String (Ascii.Ascii false false true false false true true false) String.EmptyString))),
+          String.String (Ascii.Ascii true true false false true true true false)
+            (String.String (Ascii.Ascii true false true false false true true false)
+               (String.String (Ascii.Ascii false false true true false true true false)
+                  (String.String (Ascii.Ascii false true true false false true true false)
+                     (String.String (Ascii.Ascii false true true true false true false false)
+                        (String.String (Ascii.Ascii true true true true true false true false)
+                           (String.String (Ascii.Ascii true true true false false true true false)
+                              (String.String (Ascii.Ascii false true false false true true true false)
+                                 (String.String (Ascii.Ascii true false false false false true true false)
+                                    (String.String (Ascii.Ascii false false true false false true true false)
+                                       (String.String (Ascii.Ascii true false false true false true true false)
+                                          (String.String (Ascii.Ascii true false true false false true true false)
+                                             (String.String (Ascii.Ascii false true true true false true true false)
+                                                (String.String
+                                                   (Ascii.Ascii false false true false true true true false)
+                                                   (String.String
+                                                      (Ascii.Ascii true true false true true false true false)
+                                                      (String.String
+                                                         (Ascii.Ascii false true false true true true false false)
+                                                         (String.String
+                                                            (Ascii.Ascii false false true true false true false false)
+                                                            (String.String
+                                                               (Ascii.Ascii false false false false false true false
+                                                                  false)
+                                                               (String.String
+                                                                  (Ascii.Ascii false true false true true true false
+                                                                     false)
+                                                                  (String.String
+                                                                     (Ascii.Ascii false false true true false true
+                                                                        false false)
+                                                                     (String.String
+                                                                        (Ascii.Ascii false false false false false true
+                                                                           false false)
+                                                                        (String.String
+                                                                           (Ascii.Ascii false true false true true true
+                                                                              false false)
+                                                                           (String.String
+                                                                              (Ascii.Ascii false false true true false
+                                                                                 true false false)
+                                                                              (String.String
+                                                                                 (Ascii.Ascii false false false false
+                                                                                    false true false false)
+                                                                                 (String.String
+                                                                                    (Ascii.Ascii false false false
+                                                                                       false true true false false)
+                                                                                    (String.String
+                                                                                       (Ascii.Ascii true false true
+                                                                                          true true false true false)
+                                                                                       String.EmptyString))))))))))))))))))))))))));
+         (String.String (Ascii.Ascii true true true false false true true false)
+            (String.String (Ascii.Ascii false true false false true true true false)
+               (String.String (Ascii.Ascii true false false true false true true false)
+                  (String.String (Ascii.Ascii false false true false false true true false)
+                     (String.String (Ascii.Ascii true true false false true true true false)
+                        (String.String (Ascii.Ascii true false false true false true true false)
+                           (String.String (Ascii.Ascii false true false true true true true false)
+                              (String.String (Ascii.Ascii true false true false false true true false)
+                                 String.EmptyString))))))),
+          String.String (Ascii.Ascii true true false false true true true false)
+            (String.String (Ascii.Ascii true false true false false true true false)
+               (String.String (Ascii.Ascii false false true true false true true false)
+                  (String.String (Ascii.Ascii false true true false false true true false)
+                     (String.String (Ascii.Ascii false true true true false true false false)
+                        (String.String (Ascii.Ascii true true true true true false true false)
+                           (String.String (Ascii.Ascii true true true false false true true false)
+                              (String.String (Ascii.Ascii false true false false true true true false)
+                                 (String.String (Ascii.Ascii true false false true false true true false)
+                                    (String.String (Ascii.Ascii false false true false false true true false)
+                                       (String.String (Ascii.Ascii true true false false true true true false)
+                                          (String.String (Ascii.Ascii true false false true false true true false)
+                                             (String.String (Ascii.Ascii false true false true true true true false)
+                                                (String.String
+                                                   (Ascii.Ascii true false true false false true true false)
+                                                   String.EmptyString))))))))))))));
+         (String.String (Ascii.Ascii true true true true false true true false)
+            (String.String (Ascii.Ascii false true false false true true true false)
+               (String.String (Ascii.Ascii true false false true false true true false)
+                  (String.String (Ascii.Ascii true true true false false true true false)
+                     (String.String (Ascii.Ascii true false false true false true true false)
+                        (String.String (Ascii.Ascii false true true true false true true false) String.EmptyString))))),
+          String.String (Ascii.Ascii true true false false true true true false)
+            (String.String (Ascii.Ascii true false true false false true true false)
+               (String.String (Ascii.Ascii false false true true false true true false)
+                  (String.String (Ascii.Ascii false true true false false true true false)
+                     (String.String (Ascii.Ascii false true true true false true false false)
+                        (String.String (Ascii.Ascii true true true true true false true false)
+                           (String.String (Ascii.Ascii true true true true false true true false)
+                              (String.String (Ascii.Ascii false true false false true true true false)
+                                 (String.String (Ascii.Ascii true false false true false true true false)
+                                    (String.String (Ascii.Ascii true true true false false true true false)
+                                       (String.String (Ascii.Ascii true false false true false true true false)
+                                          (String.String (Ascii.Ascii false true true true false true true false)
+                                             String.EmptyString))))))))))))];
+        [(String.String (Ascii.Ascii true true true false false true true false)
+            (String.String (Ascii.Ascii false true false false true true true false)
+               (String.String (Ascii.Ascii true false false true false true true false)
+                  (String.String (Ascii.Ascii false false true false false true true false) String.EmptyString))),
+          String.String (Ascii.Ascii true true false false true true true false)
+            (String.String (Ascii.Ascii true false true false false true true false)
+               (String.String (Ascii.Ascii false false true true false true true false)
+                  (String.String (Ascii.Ascii false true true false false true true false)
+                     (String.String (Ascii.Ascii false true true true false true false false)
+                        (String.String (Ascii.Ascii true true true true true false true false)
+                           (String.String (Ascii.Ascii true true true false false true true false)
+                              (String.String (Ascii.Ascii false true false false true true true false)
+                                 (String.String (Ascii.Ascii true false false false false true true false)
+                                    (String.String (Ascii.Ascii false false true false false true true false)
+                                       (String.String (Ascii.Ascii true false false true false true true false)
+                                          (String.String (Ascii.Ascii true false true false false true true false)
+                                             (String.String (Ascii.Ascii false true true true false true true false)
+                                                (String.String
+                                                   (Ascii.Ascii false false true false true true true false)
+                                                   (String.String
+                                                      (Ascii.Ascii true true false true true false true false)
+                                                      (String.String
+                                                         (Ascii.Ascii false true false true true true false false)
+                                                         (String.String
+                                                            (Ascii.Ascii false false true true false true false false)
+                                                            (String.String
+                                                               (Ascii.Ascii false false false false false true false
+                                                                  false)
+                                                               (String.String
+                                                                  (Ascii.Ascii false true false true true true false
+                                                                     false)
+                                                                  (String.String
+                                                                     (Ascii.Ascii false false true true false true
+                                                                        false false)
+                                                                     (String.String
+                                                                        (Ascii.Ascii false false false false false true
+                                                                           false false)
+                                                                        (String.String
+                                                                           (Ascii.Ascii false true false true true true
+                                                                              false false)
+                                                                           (String.String
+                                                                              (Ascii.Ascii false false true true false
+                                                                                 true false false)
+                                                                              (String.String
+                                                                                 (Ascii.Ascii false false false false
+                                                                                    false true false false)
+                                                                                 (String.String
+                                                                                    (Ascii.Ascii true false false false
+                                                                                       true true false false)
+                                                                                    (String.String
+                                                                                       (Ascii.Ascii true false true
+                                                                                          true true false true false)
+                                                                                       String.EmptyString))))))))))))))))))))))))));
+         (String.String (Ascii.Ascii true true true false false true true false)
+            (String.String (Ascii.Ascii false true false false true true true false)
+               (String.String (Ascii.Ascii true false false true false true true false)
+                  (String.String (Ascii.Ascii false false true false false true true false)
+                     (String.String (Ascii.Ascii true true false false true true true false)
+                        (String.String (Ascii.Ascii true false false true false true true false)
+                           (String.String (Ascii.Ascii false true false true true true true false)
+                              (String.String (Ascii.Ascii true false true false false true true false)
+                                 String.EmptyString))))))),
+          String.String (Ascii.Ascii true true false false true true true false)
+            (String.String (Ascii.Ascii true false true false false true true false)
+               (String.String (Ascii.Ascii false false true true false true true false)
+                  (String.String (Ascii.Ascii false true true false false true true false)
+                     (String.String (Ascii.Ascii false true true true false true false false)
+                        (String.String (Ascii.Ascii true true true true true false true false)
+                           (String.String (Ascii.Ascii true true true false false true true false)
+                              (String.String (Ascii.Ascii false true false false true true true false)
+                                 (String.String (Ascii.Ascii true false false true false true true false)
+                                    (String.String (Ascii.Ascii false false true false false true true false)
+                                       (String.String (Ascii.Ascii true true false false true true true false)
+                                          (String.String (Ascii.Ascii true false false true false true true false)
+                                             (String.String (Ascii.Ascii false true false true true true true false)
+                                                (String.String
+                                                   (Ascii.Ascii true false true false false true true false)
+                                                   String.EmptyString))))))))))))));
+         (String.String (Ascii.Ascii true true true true false true true false)
+            (String.String (Ascii.Ascii false true false false true true true false)
+               (String.String (Ascii.Ascii true false false true false true true false)
+                  (String.String (Ascii.Ascii true true true false false true true false)
+                     (String.String (Ascii.Ascii true false false true false true true false)
+                        (String.String (Ascii.Ascii false true true true false true true false) String.EmptyString))))),
+          String.String (Ascii.Ascii true true false false true true true false)
+            (String.String (Ascii.Ascii true false true false false true true false)
+               (String.String (Ascii.Ascii false false true true false true true false)
+                  (String.String (Ascii.Ascii false true true false false true true false)
+                     (String.String (Ascii.Ascii false true true true false true false false)
+                        (String.String (Ascii.Ascii true true true true true false true false)
+                           (String.String (Ascii.Ascii true true true true false true true false)
+                              (String.String (Ascii.Ascii false true false false true true true false)
+                                 (String.String (Ascii.Ascii true false false true false true true false)
+                                    (String.String (Ascii.Ascii true true true false false true true false)
+                                       (String.String (Ascii.Ascii true false false true false true true false)
+                                          (String.String (Ascii.Ascii false true true true false true true false)
+                                             String.EmptyString))))))))))))];
+        [(String.String (Ascii.Ascii true true true false false true true false)
+            (String.String (Ascii.Ascii false true false false true true true false)
+               (String.String (Ascii.Ascii true false false true false true true false)
+                  (String.String (Ascii.Ascii false false true false false true true false) String.EmptyString))),
+          String.String (Ascii.Ascii true true false false true true true false)
+            (String.String (Ascii.Ascii true false true false false true true false)
+               (String.String (Ascii.Ascii false false true true false true true false)
+                  (String.String (Ascii.Ascii false true true false false true true false)
+                     (String.String (Ascii.Ascii false true true true false true false false)
+                        (String.String (Ascii.Ascii true true true true true false true false)
+                           (String.String (Ascii.Ascii true true true false false true true false)
+                              (String.String (Ascii.Ascii false true false false true true true false)
+                                 (String.String (Ascii.Ascii true false false false false true true false)
+                                    (String.String (Ascii.Ascii false false true false false true true false)
+                                       (String.String (Ascii.Ascii true false false true false true true false)
+                                          (String.String (Ascii.Ascii true false true false false true true false)
+                                             (String.String (Ascii.Ascii false true true true false true true false)
+                                                (String.String
+                                                   (Ascii.Ascii false false true false true true true false)
+                                                   (String.String
+                                                      (Ascii.Ascii true true false true true false true false)
+                                                      (String.String
+                                                         (Ascii.Ascii false true false true true true false false)
+                                                         (String.String
+                                                            (Ascii.Ascii false false true true false true false false)
+                                                            (String.String
+                                                               (Ascii.Ascii false false false false false true false
+                                                                  false)
+                                                               (String.String
+                                                                  (Ascii.Ascii false true false true true true false
+                                                                     false)
+                                                                  (String.String
+                                                                     (Ascii.Ascii false false true true false true
+                                                                        false false)
+                                                                     (String.String
+                                                                        (Ascii.Ascii false false false false false true
+                                                                           false false)
+                                                                        (String.String
+                                                                           (Ascii.Ascii false true false true true true
+                                                                              false false)
+                                                                           (String.String
+                                                                              (Ascii.Ascii false false true true false
+                                                                                 true false false)
+                                                                              (String.String
+                                                                                 (Ascii.Ascii false false false false
+                                                                                    false true false false)
+                                                                                 (String.String
+                                                                                    (Ascii.Ascii false true false false
+                                                                                       true true false false)
+                                                                                    (String.String
+                                                                                       (Ascii.Ascii true false true
+                                                                                          true true false true false)
+                                                                                       String.EmptyString))))))))))))))))))))))))));
+         (String.String (Ascii.Ascii true true true false false true true false)
+            (String.String (Ascii.Ascii false true false false true true true false)
+               (String.String (Ascii.Ascii true false false true false true true false)
+                  (String.String (Ascii.Ascii false false true false false true true false)
+                     (String.String (Ascii.Ascii true true false false true true true false)
+                        (String.String (Ascii.Ascii true false false true false true true false)
+                           (String.String (Ascii.Ascii false true false true true true true false)
+                              (String.String (Ascii.Ascii true false true false false true true false)
+                                 String.EmptyString))))))),
+          String.String (Ascii.Ascii true true false false true true true false)
+            (String.String (Ascii.Ascii true false true false false true true false)
+               (String.String (Ascii.Ascii false false true true false true true false)
+                  (String.String (Ascii.Ascii false true true false false true true false)
+                     (String.String (Ascii.Ascii false true true true false true false false)
+                        (String.String (Ascii.Ascii true true true true true false true false)
+                           (String.String (Ascii.Ascii true true true false false true true false)
+                              (String.String (Ascii.Ascii false true false false true true true false)
+                                 (String.String (Ascii.Ascii true false false true false true true false)
+                                    (String.String (Ascii.Ascii false false true false false true true false)
+                                       (String.String (Ascii.Ascii true true false false true true true false)
+                                          (String.String (Ascii.Ascii true false false true false true true false)
+                                             (String.String (Ascii.Ascii false true false true true true true false)
+                                                (String.String
+                                                   (Ascii.Ascii true false true false false true true false)
+                                                   String.EmptyString))))))))))))));
+         (String.String (Ascii.Ascii true true true true false true true false)
+            (String.String (Ascii.Ascii false true false false true true true false)
+               (String.String (Ascii.Ascii true false false true false true true false)
+                  (String.String (Ascii.Ascii true true true false false true true false)
+                     (String.String (Ascii.Ascii true false false true false true true false)
+                        (String.String (Ascii.Ascii false true true true false true true false) String.EmptyString))))),
+          String.String (Ascii.Ascii true true false false true true true false)
+            (String.String (Ascii.Ascii true false true false false true true false)
+               (String.String (Ascii.Ascii false false true true false true true false)
+                  (String.String (Ascii.Ascii false true true false false true true false)
+                     (String.String (Ascii.Ascii false true true true false true false false)
+                        (String.String (Ascii.Ascii true true true true true false true false)
+                           (String.String (Ascii.Ascii true true true true false true true false)
+                              (String.String (Ascii.Ascii false true false false true true true false)
+                                 (String.String (Ascii.Ascii true false false true false true true false)
+                                    (String.String (Ascii.Ascii true true true false false true true false)
+                                       (String.String (Ascii.Ascii true false false true false true true false)
+                                          (String.String (Ascii.Ascii false true true true false true true false)
+                                             String.EmptyString))))))))))))]] /\
+       ApiGen.grid_3d_init =
+       (String.String (Ascii.Ascii false false false true false true false false)
+          (String.String (Ascii.Ascii true true false false true true true false)
+             (String.String (Ascii.Ascii true false true false false true true false)
+                (String.String (Ascii.Ascii false false true true false true true false)
+                   (String.String (Ascii.Ascii false true true false false true true false)
+                      (String.String (Ascii.Ascii false false true true false true false false)
+                         (String.String (Ascii.Ascii false false false false false true false false)
+                            (String.String (Ascii.Ascii false true false true false true false false)
+                               (String.String (Ascii.Ascii true false false false false true true false)
+                                  (String.String (Ascii.Ascii false true false false true true true false)
+                                     (String.String (Ascii.Ascii true true true false false true true false)
+                                        (String.String (Ascii.Ascii true true false false true true true false)
+                                           (String.String (Ascii.Ascii false false true true false true false false)
+                                              (String.String
+                                                 (Ascii.Ascii false false false false false true false false)
+                                                 (String.String
+                                                    (Ascii.Ascii false true false true false true false false)
+                                                    (String.String
+                                                       (Ascii.Ascii false true false true false true false false)
+                                                       (String.String
+                                                          (Ascii.Ascii true true false true false true true false)
+                                                          (String.String
+                                                             (Ascii.Ascii true true true false true true true false)
+                                                             (String.String
+                                                                (Ascii.Ascii true false false false false true true
+                                                                   false)
+                                                                (String.String
+                                                                   (Ascii.Ascii false true false false true true true
+                                                                      false)
+                                                                   (String.String
+                                                                      (Ascii.Ascii true true true false false true true
+                                                                         false)
+                                                                      (String.String
+                                                                         (Ascii.Ascii true true false false true true
+                                                                            true false)
+                                                                         (String.String
+                                                                            (Ascii.Ascii true false false true false
+                                                                               true false false) String.EmptyString)))))))))))))))))))))),
+        String.String (Ascii.Ascii true true false false true true true false)
+          (String.String (Ascii.Ascii true false true false true true true false)
+             (String.String (Ascii.Ascii false false false false true true true false)
+                (String.String (Ascii.Ascii true false true false false true true false)
+                   (String.String (Ascii.Ascii false true false false true true true false)
+                      (String.String (Ascii.Ascii false false false true false true false false)
+                         (String.String (Ascii.Ascii true false false true false true false false)
+                            (String.String (Ascii.Ascii false true true true false true false false)
+                               (String.String (Ascii.Ascii true true true true true false true false)
+                                  (String.String (Ascii.Ascii true true true true true false true false)
+                                     (String.String (Ascii.Ascii true false false true false true true false)
+                                        (String.String (Ascii.Ascii false true true true false true true false)
+                                           (String.String (Ascii.Ascii true false false true false true true false)
+                                              (String.String (Ascii.Ascii false false true false true true true false)
+                                                 (String.String (Ascii.Ascii true true true true true false true false)
+                                                    (String.String
+                                                       (Ascii.Ascii true true true true true false true false)
+                                                       (String.String
+                                                          (Ascii.Ascii false false false true false true false false)
+                                                          (String.String
+                                                             (Ascii.Ascii false true false true false true false false)
+                                                             (String.String
+                                                                (Ascii.Ascii true false false false false true true
+                                                                   false)
+                                                                (String.String
+                                                                   (Ascii.Ascii false true false false true true true
+                                                                      false)
+                                                                   (String.String
+                                                                      (Ascii.Ascii true true true false false true true
+                                                                         false)
+                                                                      (String.String
+                                                                         (Ascii.Ascii true true false false true true
+                                                                            true false)
+                                                                         (String.String
+                                                                            (Ascii.Ascii false false true true false
+                                                                               true false false)
+                                                                            (String.String
+                                                                               (Ascii.Ascii false false false false
+                                                                                  false true false false)
+                                                                               (String.String
+                                                                                  (Ascii.Ascii false true false true
+                                                                                     false true false false)
+                                                                                  (String.String
+                                                                                     (Ascii.Ascii false true false true
+                                                                                        false true false false)
+                                                                                     (String.String
+                                                                                        (Ascii.Ascii true true false
+                                                                                          true false true true false)
+                                                                                        (String.String
+                                                                                          (Ascii.Ascii true true true
+                                                                                          false true true true false)
+                                                                                          (String.String
+                                                                                          (Ascii.Ascii true false false
+                                                                                          false false true true false)
+                                                                                          (String.String
+                                                                                          (Ascii.Ascii false true false
+                                                                                          false true true true false)
+                                                                                          (String.String
+                                                                                          (Ascii.Ascii true true true
+                                                                                          false false true true false)
+                                                                                          (String.String
+                                                                                          (Ascii.Ascii true true false
+                                                                                          false true true true false)
+                                                                                          (String.String
+                                                                                          (Ascii.Ascii true false false
+                                                                                          true false true false false)
+                                                                                          String.EmptyString))))))))))))))))))))))))))))))))).
+Proof. exact @ApiGenEq.gen_gradient_3d. Qed.
+
+(* every gradient grid receives the traveltime grid's own spacing and origin *)
+Theorem C11_gradient_grids_same_spacing_origin :
+  Forall
+         (fun it : list (String.string * String.string) =>
+          tl it =
+          [(String.String (Ascii.Ascii true true true false false true true false)
+              (String.String (Ascii.Ascii false true false false true true true false)
+                 (String.String (Ascii.Ascii true false false true false true true false)
+                    (String.String (Ascii.Ascii false false true false false true true false)
+                       (String.String (Ascii.Ascii true true false false true true true false)
+                          (String.String (Ascii.Ascii true false false true false true true false)
+                             (String.String (Ascii.Ascii false true false true true true true false)
+                                (String.String (Ascii.Ascii true false true false false true true false)
+                                   String.EmptyString))))))),
+            String.String (Ascii.Ascii true true false false true true true false)
+              (String.String (Ascii.Ascii true false true false false true true false)
+                 (String.String (Ascii.Ascii false false true true false true true false)
+                    (String.String (Ascii.Ascii false true true false false true true false)
+                       (String.String (Ascii.Ascii false true true true false true false false)
+                          (String.String (Ascii.Ascii true true true true true false true false)
+                             (String.String (Ascii.Ascii true true true false false true true false)
+                                (String.String (Ascii.Ascii false true false false true true true false)
+                                   (String.String (Ascii.Ascii true false false true false true true false)
+                                      (String.String (Ascii.Ascii false false true false false true true false)
+                                         (String.String (Ascii.Ascii true true false false true true true false)
+                                            (String.String (Ascii.Ascii true false false true false true true false)
+                                               (String.String (Ascii.Ascii false true false true true true true false)
+                                                  (String.String
+                                                     (Ascii.Ascii true false true false false true true false)
+                                                     String.EmptyString))))))))))))));
+           (String.String (Ascii.Ascii true true true true false true true false)
+              (String.String (Ascii.Ascii false true false false true true true false)
+                 (String.String (Ascii.Ascii true false false true false true true false)
+                    (String.String (Ascii.Ascii true true true false false true true false)
+                       (String.String (Ascii.Ascii true false false true false true true false)
+                          (String.String (Ascii.Ascii false true true true false true true false) String.EmptyString))))),
+            String.String (Ascii.Ascii true true false false true true true false)
+              (String.String (Ascii.Ascii true false true false false true true false)
+                 (String.String (Ascii.Ascii false false true true false true true false)
+                    (String.String (Ascii.Ascii false true true false false true true false)
+                       (String.String (Ascii.Ascii false true true true false true false false)
+                          (String.String (Ascii.Ascii true true true true true false true false)
+                             (String.String (Ascii.Ascii true true true true false true true false)
+                                (String.String (Ascii.Ascii false true false false true true true false)
+                                   (String.String (Ascii.Ascii true false false true false true true false)
+                                      (String.String (Ascii.Ascii true true true false false true true false)
+                                         (String.String (Ascii.Ascii true false false true false true true false)
+                                            (String.String (Ascii.Ascii false true true true false true true false)
+                                               String.EmptyString))))))))))))])
+         (ApiGen.gradient_2d_items ++ ApiGen.gradient_3d_items) /\
+       length ApiGen.gradient_2d_items = 2%nat /\ length ApiGen.gradient_3d_items = 3%nat.
+Proof. exact @ApiGenEq.gen_gradient_items_meta. Qed.
+
 Print Assumptions C11_sweep_tt_independent_of_grad.
 Print Assumptions C11_sweep2d_tt_independent_of_grad.
 Print Assumptions C11_sweep3d_tt_independent_of_grad.
@@ -188,3 +1040,6 @@ Print Assumptions C11_solve2d_gradient_empty_without_flag.
 Print Assumptions C11_gradient_is_normalised_one_sided_difference_2d.
 Print Assumptions C11_gradient_component_sign_follows_grid_difference_2d.
 Print Assumptions C11_recorded_direction_not_always_upwind.
+Print Assumptions C11_gradient_grids_component_order_2d.
+Print Assumptions C11_gradient_grids_component_order_3d.
+Print Assumptions C11_gradient_grids_same_spacing_origin.
